@@ -166,6 +166,13 @@ func (s *ctxIface) VarlinkDispatch(ctx context.Context, c varlink.Call, method s
 	if method == "Fail" {
 		return fmt.Errorf("handler gives up")
 	}
+	if method == "KeepDl" {
+		// a reply sent under a deadline of its own, which passes soon afterwards: later replies on this connection,
+		// sent under the connection's own context, must not inherit it
+		dctx, cancel := context.WithTimeout(ctx, 40*time.Millisecond)
+		defer cancel()
+		return c.Reply(dctx, nil)
+	}
 	return c.Reply(ctx, nil)
 }
 
@@ -173,7 +180,7 @@ func init() {
 	commands["connctx"] = func(e *env) error {
 		return e.each(func(i int, g *Rng) error {
 			ctx := context.Background()
-			ending := []string{"client-close", "garbage", "handler-error", "client-abort"}[i%4]
+			ending := []string{"client-close", "garbage", "handler-error", "client-abort", "deadline-then-plain"}[i%5]
 			iface := &ctxIface{got: make(chan context.Context, 4)}
 			svc, err := varlink.NewService("ctx", "p", "1", "u")
 			if err != nil {
@@ -202,6 +209,9 @@ func init() {
 			if ending == "handler-error" {
 				method = "Fail"
 			}
+			if ending == "deadline-then-plain" {
+				method = "KeepDl"
+			}
 			conn.Write([]byte(`{"method":"org.example.ctx.` + method + `"}` + "\x00"))
 			var hctx context.Context
 			select {
@@ -218,7 +228,16 @@ func init() {
 				time.Sleep(20 * time.Millisecond)
 				live = hctx.Err() == nil
 			}
+			second := true
 			switch ending {
+			case "deadline-then-plain":
+				time.Sleep(90 * time.Millisecond) // the handler's 40 ms deadline is long past
+				conn.Write([]byte(`{"method":"org.example.ctx.Keep"}` + "\x00"))
+				buf := make([]byte, 256)
+				conn.SetReadDeadline(time.Now().Add(3 * time.Second))
+				n, err := conn.Read(buf)
+				second = err == nil && n > 0 && buf[n-1] == 0
+				conn.Close()
 			case "client-close":
 				conn.Close()
 			case "client-abort":
@@ -240,7 +259,88 @@ func init() {
 			case <-time.After(10 * time.Second):
 			}
 			l := &Line{}
-			l.S("connctx").S(ending).S("|").Bool(live).Bool(cancelled)
+			l.S("connctx").S(ending).S("|").Bool(live).Bool(cancelled).Bool(second)
+			fmt.Fprintln(e.out, l.String())
+			return nil
+		})
+	}
+}
+
+// stall (C10) — one client floods the service with well-formed calls and never reads a reply, so that the replies to
+// it block; it stays connected. Other connections must not notice: an established one is still answered, a new one
+// is accepted and answered, and Shutdown still returns.
+//
+//	stall <calls> | <established probe answered 0/1> <new connection answered 0/1> <shutdown returned 0/1> <serving ended after the staller left 0/1>
+func init() {
+	commands["stall"] = func(e *env) error {
+		return e.each(func(i int, g *Rng) error {
+			ctx := context.Background()
+			svc, err := varlink.NewService("stall", "p", "1", "u")
+			if err != nil {
+				return err
+			}
+			if err := svc.RegisterInterface(&ctxIface{got: make(chan context.Context, 4)}); err != nil {
+				return err
+			}
+			addr := fmt.Sprintf("unix:@verif-stall-%d-%d-%d", e.seed, i, time.Now().UnixNano()%1000000)
+			if err := svc.Bind(ctx, addr); err != nil {
+				return err
+			}
+			done := make(chan error, 1)
+			go func() { done <- svc.DoListen(ctx, 0) }()
+			for t := 0; t < 3000; t++ {
+				if running, _, _, _ := svc.VerifState(); running {
+					break
+				}
+				time.Sleep(time.Millisecond)
+			}
+			probe, err := varlink.NewConnection(ctx, addr)
+			if err != nil {
+				return err
+			}
+			staller, err := net.Dial("unix", addr[5:])
+			if err != nil {
+				return err
+			}
+			frame := []byte(`{"method":"org.varlink.service.GetInfo"}` + "\x00" + `{"method":"org.varlink.service.GetInterfaceDescription","parameters":{"interface":"org.varlink.service"}}` + "\x00")
+			calls := 0
+			staller.SetWriteDeadline(time.Now().Add(1500 * time.Millisecond))
+			for calls < 400000 {
+				if _, err := staller.Write(frame); err != nil {
+					break // the service no longer takes input from it: its replies are stuck
+				}
+				calls += 2
+			}
+			answered := func(c *varlink.Connection) bool {
+				cctx, cancel := context.WithTimeout(ctx, 3*time.Second)
+				defer cancel()
+				var v string
+				return c.GetInfo(cctx, &v, nil, nil, nil, nil) == nil && v == "stall"
+			}
+			established := answered(probe)
+			fresh := false
+			if c2, err := varlink.NewConnection(ctx, addr); err == nil {
+				fresh = answered(c2)
+				c2.Close()
+			}
+			probe.Close()
+			shut := make(chan struct{})
+			go func() { svc.Shutdown(); close(shut) }()
+			shutdownReturned := false
+			select {
+			case <-shut:
+				shutdownReturned = true
+			case <-time.After(3 * time.Second):
+			}
+			staller.Close()
+			ended := false
+			select {
+			case <-done:
+				ended = true
+			case <-time.After(10 * time.Second):
+			}
+			l := &Line{}
+			l.S("stall").N(calls).S("|").Bool(established).Bool(fresh).Bool(shutdownReturned).Bool(ended)
 			fmt.Fprintln(e.out, l.String())
 			return nil
 		})
